@@ -781,6 +781,7 @@ type gatedCC struct {
 	free     bool
 	arrive   chan ccArrival
 	nextAnon int
+	lastGet  map[string][2]int64
 }
 
 type ccArrival struct {
@@ -816,6 +817,10 @@ func (g *gatedCC) GetPortMapping(id string) (*models.PortMapping, error) {
 	g.mu.Lock()
 	defer g.mu.Unlock()
 	g.gets++
+	if g.lastGet == nil {
+		g.lastGet = map[string][2]int64{}
+	}
+	g.lastGet[goid()] = [2]int64{g.sent, g.recv}
 	m := &models.PortMapping{ID: id}
 	m.TrafficStats.BytesSent, m.TrafficStats.BytesReceived = g.sent, g.recv
 	return m, nil
@@ -826,7 +831,12 @@ func (g *gatedCC) UpdatePortMappingStats(id string, ts *stats.TrafficStats) erro
 	g.mu.Lock()
 	defer g.mu.Unlock()
 	g.updates++
-	g.deltas = append(g.deltas, [2]int64{ts.BytesSent - g.sent, ts.BytesReceived - g.recv})
+	// the delta the caller computed = what it writes minus what its own GetPortMapping returned
+	base, ok := g.lastGet[goid()]
+	if !ok {
+		base = [2]int64{g.sent, g.recv}
+	}
+	g.deltas = append(g.deltas, [2]int64{ts.BytesSent - base[0], ts.BytesReceived - base[1]})
 	g.sent, g.recv = ts.BytesSent, ts.BytesReceived
 	return nil
 }
